@@ -157,14 +157,21 @@ type c18ReadResult struct {
 	err  error
 }
 
+// c18ReuseMsg makes c18ReadAll read every frame into ONE message object (as read loops commonly do).
+var c18ReuseMsg bool
+
 // c18ReadAll reads until error. After every ReadMsg it re-checks all frames
 // returned earlier against deep copies taken when they were returned.
 func c18ReadAll(rep *verifkit.Report, label string, k c18Kind, r io.Reader, limit int, maxFrames int) c18ReadResult {
 	rd := c18Reader(k, r, limit)
 	var res c18ReadResult
 	var live []*wrapperspb.BytesValue
+	reused := &wrapperspb.BytesValue{}
 	for i := 0; i < maxFrames; i++ {
 		m := &wrapperspb.BytesValue{}
+		if c18ReuseMsg {
+			m = reused // a read loop that keeps one message variable: every ReadMsg must overwrite it completely
+		}
 		var err error
 		p, stack := verifkit.Try(func() { err = rd.ReadMsg(m) })
 		if p != nil {
@@ -182,7 +189,9 @@ func c18ReadAll(rep *verifkit.Report, label string, k c18Kind, r io.Reader, limi
 			res.err = err
 			return res
 		}
-		live = append(live, m)
+		if !c18ReuseMsg {
+			live = append(live, m)
+		}
 		res.msgs = append(res.msgs, append([]byte(nil), m.Value...))
 	}
 	res.err = errors.New("verif: more frames than written")
@@ -202,7 +211,7 @@ func TestVerifC18(t *testing.T) {
 	defer rep.Finish(t)
 	rep.Rule = "message sequences x writer kind (varint/uint32be/uint32le) x marshal path x chunking of the byte stream " +
 		"(every composition of the stream length for streams <= 14 bytes, seeded random chunkings beyond, (n>0,EOF) and (0,nil) reads); " +
-		"hostile streams: truncation at every offset, oversize/malformed lengths, random bytes. distinct = (kind,path,stream hash,chunk plan) / (kind,hostile bytes)"
+		"every stream is read both into fresh messages and into one reused message object; hostile streams: truncation at every offset, oversize/malformed lengths, random bytes. distinct = (kind,path,stream hash,chunk plan) / (kind,hostile bytes)"
 	rep.Assume("allocation is measured as runtime.MemStats.TotalAlloc delta around one ReadMsg call with GC disabled and a single goroutine")
 
 	old := debug.SetGCPercent(-1)
@@ -251,6 +260,11 @@ func TestVerifC18(t *testing.T) {
 						res := c18ReadAll(rep, label, k, cr, limit, len(msgs)+1)
 						c18JudgeRoundTrip(rep, label, k, msgs, res)
 						rep.Case(label)
+						c18ReuseMsg = true
+						res = c18ReadAll(rep, label+" reused-message", k, &chunkReader{data: append([]byte(nil), stream...), plan: plan, eofWithData: mode == 1}, limit, len(msgs)+1)
+						c18ReuseMsg = false
+						c18JudgeRoundTrip(rep, label+" reused-message", k, msgs, res)
+						rep.Case(label + " reused-message")
 					}
 				}
 			}
@@ -308,7 +322,12 @@ func TestVerifC18(t *testing.T) {
 			}
 			cr := &chunkReader{data: append([]byte(nil), stream...), plan: plan, eofWithData: rng.Intn(2) == 0, zeroReads: rng.Intn(4) == 0}
 			label := fmt.Sprintf("%s fast=%v bodies=%v style=%d eofWithData=%v zeroReads=%v", k, fast, sizes, style, cr.eofWithData, cr.zeroReads)
+			c18ReuseMsg = c%2 == 1
+			if c18ReuseMsg {
+				label += " reused-message"
+			}
 			res := c18ReadAll(rep, label, k, cr, limit, len(msgs)+1)
+			c18ReuseMsg = false
 			c18JudgeRoundTrip(rep, label, k, msgs, res)
 			rep.Case(fmt.Sprintf("%s/%d/%d", label, it, c))
 			if it == 0 && c == 0 {
